@@ -633,6 +633,21 @@ def reified_coq(F: dict[str, Any]) -> tuple[str, dict]:
         lhs_p, lhs = poly_of(L[2]), 'GSqrt'
     else:
         lhs_p, lhs = poly_of(L), 'GPoly'
+    def gexpr(ir: Any) -> str:
+        if ir[0] == 'call' and ir[1] == 'sqrt':
+            return f'(GSqrt {coq_poly(poly_of(ir[2]))})'
+        return f'(GPoly {coq_poly(poly_of(ir))})'
+
+    def comp_cfg(c: tuple) -> str:
+        """One component of the angle, reified; COther when it is not atan2 of polynomials / square roots of polynomials."""
+        try:
+            if c[0] == 'const':
+                fr = Fraction(repr(c[1])) if isinstance(c[1], float) else Fraction(c[1])
+                return f'CConst ({fr.numerator}#{fr.denominator})%Q' if fr.numerator >= 0 else f'CConst (({fr.numerator})#{fr.denominator})%Q'
+            return f'CAtan2 {gexpr(c[1])} {gexpr(c[2])}'
+        except TranslateError:
+            return 'COther'
+    pitch_cfg = {br: comp_cfg(ta[br]['pitch']) for br in ('main', 'lock')}
     to_s = lambda v: 's.' + v[2:] if v.startswith('o.') else v      # noqa: E731
     self_p = [poly_of(e) for e in F['mat_mul_self']]
     ss_p = [poly_of(_subst(e, to_s)) for e in F['mat_mul']]
@@ -642,11 +657,14 @@ def reified_coq(F: dict[str, Any]) -> tuple[str, dict]:
            '(* the test that selects the non-degenerate branch of _to_angle: operator, left operand, literal *)',
            f'Definition ta_guard_cfg : guard_cfg := GuardCfg {dict(Gt="CGt", GtE="CGe", Lt="CLt", LtE="CLe")[op]} '
            f'({lhs} {coq_poly(lhs_p)}) ({thr.numerator}#{thr.denominator})%Q.', '',
+           '(* the pitch component of the result of _to_angle in the non-degenerate and in the gimbal-lock branch *)',
+           f'Definition ta_pitch_main_cfg : comp_cfg := {pitch_cfg["main"]}.',
+           f'Definition ta_pitch_lock_cfg : comp_cfg := {pitch_cfg["lock"]}.', '',
            '(* the nine entries of self._mat_mul(self) as executed with one object on both sides ... *)',
            'Definition mat_mul_self_polys : list poly := [\n  ' + ';\n  '.join(coq_poly(p) for p in self_p) + '].',
            '(* ... and of the product formula with `other` replaced by `self` *)',
            'Definition mat_mul_ss_polys : list poly := [\n  ' + ';\n  '.join(coq_poly(p) for p in ss_p) + '].', '']
-    side = {'guard_operator': op, 'guard_left_operand': f'{lhs} {coq_poly(lhs_p)}', 'guard_literal': str(thr),
+    side = {'guard_operator': op, 'guard_left_operand': f'{lhs} {coq_poly(lhs_p)}', 'guard_literal': str(thr), 'pitch': pitch_cfg,
             'alias_rows_equal': [self_p[i:i + 3] == ss_p[i:i + 3] for i in (0, 3, 6)]}
     return '\n'.join(out), side
 
